@@ -925,7 +925,12 @@ class Interp:
                                 and not (first_.extra.lower is None and first_.extra.upper is None)
                                 and all(b_ is None or isinstance(b_, ast.Constant) or (isinstance(b_, ast.UnaryOp) and isinstance(b_.operand, ast.Constant))
                                         for b_ in (first_.extra.lower, first_.extra.upper)))
-                            if fixed_row:
+                            second_ = idx.items[1] if (idx.kind == "indextuple" and len(idx.items) == 2) else None
+                            fixed_col = second_ is not None and first_.kind == "slice" and first_.extra is not None and first_.extra.lower is None \
+                                and first_.extra.upper is None and (
+                                    (second_.has_const() and isinstance(second_.const, int)) or (second_.kind == "slice" and second_.extra is not None and all(
+                                        b_ is None or isinstance(b_, ast.Constant) for b_ in (second_.extra.lower, second_.extra.upper))))
+                            if fixed_row or fixed_col:
                                 # a block of rows at a fixed position gets a quantity of another kind than the other rows (the plane
                                 # constraint under the vertex equations of a linear system): a heterogeneous table, never a report
                                 d = TOP
